@@ -378,21 +378,54 @@ Definition parse_cols (d : tdesc) (cs : cols) : res Z :=
   do nr <- parse_ragged (td_md d) (td_mdlen_bug d) 0 nr0 (snd cs);
   match nr with Some n => Ok n | None => Err PY_VALUE_ERROR end.
 
-(* Table.append_columns / Table.set_columns as reached from Python *)
-Definition append_columns (d : tdesc) (t : tbl) (cs : cols) : step :=
+(* all supplied offset arrays checked up front (the repair of finding F14 hoists the
+   check_offsets calls before the first change; it also lets the binding check them while it
+   parses the arguments, i.e. before parse_<table>_table_dict clears the table) *)
+Fixpoint precheck_offsets (m : Z) (inputs : list (option (list Z * list Z))) : res unit :=
+  match inputs with
+  | [] => Ok tt
+  | None :: rest => precheck_offsets m rest
+  | Some (_, offs) :: rest => do _ <- check_offsets m offs; precheck_offsets m rest
+  end.
+
+(* tsk_*_table_append_columns, pinned ([atomic = false]: append_columns_c above) or repaired *)
+Definition append_columns_c_gen (atomic : bool) (d : tdesc) (t : tbl) (m : Z) (cs : cols) : step :=
+  if atomic then
+    match precheck_offsets m (snd cs) with
+    | Ok _ => append_columns_c d t m cs
+    | e => (t, err_of e)
+    end
+  else append_columns_c d t m cs.
+
+(* Table.append_columns / Table.set_columns as reached from Python:
+   parse_<table>_table_dict = dimension checks (+ offset checks in the repaired binding),
+   then clear (set_columns only), then tsk_*_table_append_columns *)
+Definition append_columns_gen (bchk atomic : bool) (d : tdesc) (t : tbl) (cs : cols) : step :=
   match parse_cols d cs with
-  | Ok n => append_columns_c d t n cs
+  | Ok n =>
+      match (if bchk then precheck_offsets n (snd cs) else Ok tt) with
+      | Ok _ => append_columns_c_gen atomic d t n cs
+      | e => (t, err_of e)
+      end
   | e => (t, err_of e)
   end.
 
-Definition set_columns (d : tdesc) (t : tbl) (cs : cols) : step :=
+Definition set_columns_gen (bchk atomic : bool) (d : tdesc) (t : tbl) (cs : cols) : step :=
   match parse_cols d cs with
-  | Ok n => match clear t with
-            | Ok t0 => append_columns_c d t0 n cs
-            | e => (t, err_of e)
-            end
+  | Ok n =>
+      match (if bchk then precheck_offsets n (snd cs) else Ok tt) with
+      | Ok _ => match clear t with
+                | Ok t0 => append_columns_c_gen atomic d t0 n cs
+                | e => (t, err_of e)
+                end
+      | e => (t, err_of e)
+      end
   | e => (t, err_of e)
   end.
+
+(* which variant the code has is regenerated from tables.c / tskit_lwt_interface.h *)
+Definition append_columns := append_columns_gen c13_binding_checks_offsets c13_append_offsets_checked_first.
+Definition set_columns := set_columns_gen c13_binding_checks_offsets c13_append_offsets_checked_first.
 
 (* the columns as Python sees them: t.X has X_length cells, t.X_offset num_rows + 1 *)
 Definition asdict (t : tbl) : cols :=
